@@ -5,8 +5,8 @@
     Key lemmas: a byte-aligned lane write is a splice of the big-endian bytes ([w_aligned]);
     [be_bytes] inverts [be_val] on byte lists ([be_bytes_be_val]). *)
 From Coq Require Import Lia ZifyBool ZifyNat ZifyN.
-From Sci Require Import Wire.Codec Wire.Spec_C03 Wire.BitFieldProofs Wire.Proofs_C02 Wire.RoundTripProofs
-  Wire.SpecAgreeProofs Wire.SpecDecodeAgree.
+From Sci Require Import Wire.Codec Wire.Spec_C03 Wire.BitFieldProofs Wire.Proofs_C02 Wire.Proofs_C02d Wire.RoundTripProofs
+  Wire.SpecAgreeProofs Wire.SpecDecodeAgree Wire.ChecksumVerify Wire.EncodeLengthProofs Wire.AddrRoundTrip Wire.StdPathRoundTrip.
 Local Open Scope N_scope.
 Ltac Zify.zify_post_hook ::= Z.div_mod_to_equations.
 Arguments N.add : simpl never. Arguments N.sub : simpl never. Arguments N.mul : simpl never.
@@ -277,6 +277,10 @@ Proof.
   destruct (common_header_roundtrip_lemma h units psize buf Hob ltac:(rewrite Lb; unfold CommonHeader_SIZE_BYTES; lia)
               Htc Hfl Hnh Hun Hps Hpt Hdn Hsn) as (O2 & L2 & Qv & Qtc & Qfl & Qnh & Qhl & Qpl & Qpt & Qd & Qs & Qr & _).
   set (v2 := encode_common h units psize buf) in *. rewrite Lb in L2.
+  assert (X0 : be v 0 1 < 256) by (apply (be_lt v 0 1 Hok); rewrite ?Lv, ?L2; apply N.leb_le; reflexivity). assert (Y0 : be v2 0 1 < 256) by (apply (be_lt v2 0 1 O2); rewrite ?Lv, ?L2; apply N.leb_le; reflexivity).
+  assert (X1 : be v 1 1 < 256) by (apply (be_lt v 1 1 Hok); rewrite ?Lv, ?L2; apply N.leb_le; reflexivity). assert (Y1 : be v2 1 1 < 256) by (apply (be_lt v2 1 1 O2); rewrite ?Lv, ?L2; apply N.leb_le; reflexivity).
+  assert (X2 : be v 2 2 < 65536) by (apply (be_lt v 2 2 Hok); rewrite ?Lv, ?L2; apply N.leb_le; reflexivity). assert (Y2 : be v2 2 2 < 65536) by (apply (be_lt v2 2 2 O2); rewrite ?Lv, ?L2; apply N.leb_le; reflexivity).
+  assert (X9 : be v 9 1 < 256) by (apply (be_lt v 9 1 Hok); rewrite ?Lv, ?L2; apply N.leb_le; reflexivity). assert (Y9 : be v2 9 1 < 256) by (apply (be_lt v2 9 1 O2); rewrite ?Lv, ?L2; apply N.leb_le; reflexivity).
   pose proof (spec_common_agrees v Hok ltac:(rewrite Lv; unfold CommonHeader_SIZE_BYTES; lia)) as A. cbv zeta in A.
   destruct A as (A1 & A2 & A3 & A4 & A5 & A6 & A7 & A8 & A9 & A10).
   pose proof (spec_common_agrees v2 O2 ltac:(rewrite L2; unfold CommonHeader_SIZE_BYTES; lia)) as B. cbv zeta in B.
@@ -289,10 +293,6 @@ Proof.
   inversion A7 as [a7]. inversion A8 as [a8]. inversion A9 as [a9]. inversion A10 as [a10].
   inversion B1 as [b1]. inversion B2 as [b2]. inversion B3 as [b3]. inversion B4 as [b4]. inversion B5 as [b5]. inversion B6 as [b6].
   inversion B7 as [b7]. inversion B8 as [b8]. inversion B9 as [b9]. inversion B10 as [b10].
-  assert (X0 : be v 0 1 < 256) by (apply (be_lt v 0 1 Hok); lia). assert (Y0 : be v2 0 1 < 256) by (apply (be_lt v2 0 1 O2); lia).
-  assert (X1 : be v 1 1 < 256) by (apply (be_lt v 1 1 Hok); lia). assert (Y1 : be v2 1 1 < 256) by (apply (be_lt v2 1 1 O2); lia).
-  assert (X2 : be v 2 2 < 65536) by (apply (be_lt v 2 2 Hok); lia). assert (Y2 : be v2 2 2 < 65536) by (apply (be_lt v2 2 2 O2); lia).
-  assert (X9 : be v 9 1 < 256) by (apply (be_lt v 9 1 Hok); lia). assert (Y9 : be v2 9 1 < 256) by (apply (be_lt v2 9 1 O2); lia).
   assert (E0 : be v2 0 1 = be v 0 1) by (clear - a1 a2 b1 b2 X0 Y0 X1 Y1; lia).
   assert (E1 : be v2 1 1 = be v 1 1) by (clear - a2 a3 b2 b3 X0 Y0 X1 Y1 X2 Y2 E0; lia).
   assert (E2 : be v2 2 2 = be v 2 2) by (clear - a3 b3 E1 X2 Y2; lia).
@@ -303,14 +303,414 @@ Proof.
   assert (E9 : be v2 9 1 = be v 9 1) by (clear - a8 a9 b8 b9 X9 Y9; lia).
   assert (E10 : be v2 10 2 = be v 10 2) by congruence.
   assert (S0 : sub v2 0 0 = sub v 0 0) by reflexivity.
-  pose proof (chunk_ext v v2 0 1 Hok O2 ltac:(lia) ltac:(lia) S0 E0) as S1. change (0 + 1) with 1 in S1.
-  pose proof (chunk_ext v v2 1 1 Hok O2 ltac:(lia) ltac:(lia) S1 E1) as S2. change (1 + 1) with 2 in S2.
-  pose proof (chunk_ext v v2 2 2 Hok O2 ltac:(lia) ltac:(lia) S2 E2) as S4. change (2 + 2) with 4 in S4.
-  pose proof (chunk_ext v v2 4 1 Hok O2 ltac:(lia) ltac:(lia) S4 E4) as S5. change (4 + 1) with 5 in S5.
-  pose proof (chunk_ext v v2 5 1 Hok O2 ltac:(lia) ltac:(lia) S5 E5) as S6. change (5 + 1) with 6 in S6.
-  pose proof (chunk_ext v v2 6 2 Hok O2 ltac:(lia) ltac:(lia) S6 E6) as S8. change (6 + 2) with 8 in S8.
-  pose proof (chunk_ext v v2 8 1 Hok O2 ltac:(lia) ltac:(lia) S8 E8) as S9. change (8 + 1) with 9 in S9.
-  pose proof (chunk_ext v v2 9 1 Hok O2 ltac:(lia) ltac:(lia) S9 E9) as S10. change (9 + 1) with 10 in S10.
-  pose proof (chunk_ext v v2 10 2 Hok O2 ltac:(lia) ltac:(lia) S10 E10) as S12. change (10 + 2) with 12 in S12.
-  apply sub_whole_eq; [lia|]. rewrite Lv. exact S12.
+  pose proof (chunk_ext v v2 0 1 Hok O2 ltac:(rewrite Lv; apply N.leb_le; reflexivity) ltac:(rewrite L2; apply N.leb_le; reflexivity) S0 E0) as S1. change (0 + 1) with 1 in S1.
+  pose proof (chunk_ext v v2 1 1 Hok O2 ltac:(rewrite Lv; apply N.leb_le; reflexivity) ltac:(rewrite L2; apply N.leb_le; reflexivity) S1 E1) as S2. change (1 + 1) with 2 in S2.
+  pose proof (chunk_ext v v2 2 2 Hok O2 ltac:(rewrite Lv; apply N.leb_le; reflexivity) ltac:(rewrite L2; apply N.leb_le; reflexivity) S2 E2) as S4. change (2 + 2) with 4 in S4.
+  pose proof (chunk_ext v v2 4 1 Hok O2 ltac:(rewrite Lv; apply N.leb_le; reflexivity) ltac:(rewrite L2; apply N.leb_le; reflexivity) S4 E4) as S5. change (4 + 1) with 5 in S5.
+  pose proof (chunk_ext v v2 5 1 Hok O2 ltac:(rewrite Lv; apply N.leb_le; reflexivity) ltac:(rewrite L2; apply N.leb_le; reflexivity) S5 E5) as S6. change (5 + 1) with 6 in S6.
+  pose proof (chunk_ext v v2 6 2 Hok O2 ltac:(rewrite Lv; apply N.leb_le; reflexivity) ltac:(rewrite L2; apply N.leb_le; reflexivity) S6 E6) as S8. change (6 + 2) with 8 in S8.
+  pose proof (chunk_ext v v2 8 1 Hok O2 ltac:(rewrite Lv; apply N.leb_le; reflexivity) ltac:(rewrite L2; apply N.leb_le; reflexivity) S8 E8) as S9. change (8 + 1) with 9 in S9.
+  pose proof (chunk_ext v v2 9 1 Hok O2 ltac:(rewrite Lv; apply N.leb_le; reflexivity) ltac:(rewrite L2; apply N.leb_le; reflexivity) S9 E9) as S10. change (9 + 1) with 10 in S10.
+  pose proof (chunk_ext v v2 10 2 Hok O2 ltac:(rewrite Lv; apply N.leb_le; reflexivity) ltac:(rewrite L2; apply N.leb_le; reflexivity) S10 E10) as S12. change (10 + 2) with 12 in S12.
+  apply sub_whole_eq; [rewrite L2, Lv; reflexivity|]. rewrite Lv. exact S12.
+Qed.
+
+(** * layers that are plain copies: raw payload, unsupported path data, empty path *)
+Lemma put_whole (x buf : bytes) : blen buf = blen x -> put 0 x buf = x.
+Proof.
+  intros H. unfold put. cbn [N.to_nat firstn app Nat.add]. rewrite skipn_all2 by (unfold blen in H; lia). apply app_nil_r.
+Qed.
+
+Lemma encode_decode_raw_payload h (v buf : bytes) hs alh al :
+  blen buf = blen v -> encode_payload h (PL_Raw v) hs alh al buf = v.
+Proof. intros H. cbn [encode_payload]. apply put_whole. exact H. Qed.
+
+Lemma encode_decode_plain_paths (v buf : bytes) pt :
+  blen buf = blen v ->
+  encode_path (DP_Unsupported pt v) buf = v /\ (blen v = 0 -> encode_path DP_Empty buf = v).
+Proof.
+  intros H. split; [cbn [encode_path]; apply put_whole; exact H|].
+  intros Z. cbn [encode_path]. unfold blen in *. destruct buf; [|cbn in H; lia]. destruct v; [reflexivity|cbn in Z; lia].
+Qed.
+
+(** * UDP datagram: header (ports, length, checksum) + data *)
+Lemma put_slice_step_t (T b : bytes) o k x :
+  blen b = blen T -> sub b 0 o = sub T 0 o -> o + k <= blen T -> x = sl T o k ->
+  blen (put o x b) = blen T /\ sub (put o x b) 0 (o + k) = sub T 0 (o + k).
+Proof. intros L P H ->. apply put_slice_step; assumption. Qed.
+
+Lemma put_same (v : bytes) o k : o + k <= blen v -> put o (sl v o k) v = v.
+Proof.
+  intros H. destruct (put_slice_step v v o k eq_refl eq_refl H) as [L P].
+  unfold put in *. assert (Lx : length (sl v o k) = N.to_nat k) by (pose proof (sl_blen v o k H) as E; unfold blen in E; lia).
+  rewrite Lx. unfold sl. rewrite <- N2Nat.inj_add.
+  rewrite <- (firstn_skipn (N.to_nat o) v) at 4.
+  f_equal. rewrite <- (firstn_skipn (N.to_nat k) (skipn (N.to_nat o) v)) at 2. f_equal.
+  rewrite skipn_skipn'. rewrite N2Nat.inj_add. reflexivity.
+Qed.
+
+Lemma put_put (v x y : bytes) o : length x = length y -> o + blen y <= blen v -> put o x (put o y v) = put o x v.
+Proof.
+  intros Hl Hb. unfold put. unfold blen in *.
+  assert (L1 : length (firstn (N.to_nat o) v) = N.to_nat o) by (rewrite firstn_length; lia).
+  rewrite firstn_app, L1, Nat.sub_diag. cbn [firstn]. rewrite app_nil_r, firstn_firstn, Nat.min_id.
+  f_equal. f_equal. rewrite Hl.
+  rewrite app_assoc. rewrite skipn_app.
+  assert (L2 : length (firstn (N.to_nat o) v ++ y) = (N.to_nat o + length y)%nat) by (rewrite app_length, L1; reflexivity).
+  rewrite L2, Nat.sub_diag. rewrite skipn_all2 by lia. cbn [skipn app]. reflexivity.
+Qed.
+
+Lemma encode_decode_udp h (v buf : bytes) sp dp d hs alh al :
+  bytes_ok v = true -> 8 <= blen v -> blen v <= 65535 -> be v 4 2 = blen v ->
+  decode_udp v = Ok (PL_Udp sp dp d) -> blen buf = blen v ->
+  be v 6 2 = l4_checksum h PROTO_UDP (put 6 [0; 0] v) alh al ->
+  encode_payload h (PL_Udp sp dp d) hs alh al buf = v.
+Proof.
+  intros Hok L8 L16 Hlen Hd Lb Hc.
+  destruct (spec_udp_agrees v Hok ltac:(unfold UdpDatagram_HEADER_SIZE_BYTES; lia)) as (E1 & E2 & _).
+  unfold decode_udp in Hd. rewrite E1, E2 in Hd. cbn [obind] in Hd. unfold udp_payload_range in Hd.
+  change UdpDatagram_HEADER_SIZE_BYTES with 8 in Hd. rewrite get_unchecked_ok in Hd by lia. cbn [obind fst snd] in Hd.
+  inversion Hd; subst sp dp d. clear Hd.
+  assert (Ld : blen (sub v 8 (blen v)) = blen v - 8) by (rewrite blen_sub by lia; reflexivity).
+  set (T := put 6 [0; 0] v).
+  assert (LT : blen T = blen v) by (unfold T; rewrite put_blen by (cbn; lia); reflexivity).
+  assert (T0 : sl T 0 2 = sl v 0 2) by (rewrite !sl_sub; unfold T; apply put_sub_below; lia).
+  assert (T2 : sl T 2 2 = sl v 2 2) by (rewrite !sl_sub; unfold T; apply put_sub_below; lia).
+  assert (T4 : sl T 4 2 = sl v 4 2) by (rewrite !sl_sub; unfold T; apply put_sub_below; lia).
+  assert (T6 : sl T 6 2 = [0; 0]) by (rewrite sl_sub; unfold T; change (6 + 2) with (6 + blen [0; 0]); apply put_sub_exact; cbn; lia).
+  assert (T8 : sl T 8 (blen v - 8) = sub v 8 (blen v)).
+  { rewrite sl_sub. replace (8 + (blen v - 8)) with (blen v) by lia. unfold T. apply put_sub_above; cbn; lia. }
+  cbn [encode_payload]. change UdpDatagram_HEADER_SIZE_BYTES with 8. rewrite Ld.
+  replace (8 + (blen v - 8)) with (blen v) by lia.
+  unfold trunc. change (2 ^ 16) with 65536. rewrite (N.mod_small (blen v)) by lia.
+  change UdpDatagram_SRC_PORT_RNG with (8 * 0, 8 * 2). change UdpDatagram_DST_PORT_RNG with (8 * 2, 8 * 2).
+  change UdpDatagram_LENGTH_RNG with (8 * 4, 8 * 2). change UdpDatagram_CHECKSUM_RNG with (8 * 6, 8 * 2).
+  rewrite (w_aligned 0 2 _ buf) by (first [lia | (apply (be_lt v 0 2 Hok); lia)]).
+  rewrite (be_bytes_sl v 0 2 Hok) by lia.
+  destruct (put_slice_step_t T buf 0 2 _ ltac:(lia) ltac:(reflexivity) ltac:(lia) (eq_sym T0)) as [L1 P1]. change (0 + 2) with 2 in P1.
+  set (b1 := put 0 (sl v 0 2) buf) in *.
+  rewrite (w_aligned 2 2 _ b1) by (first [lia | (apply (be_lt v 2 2 Hok); lia)]).
+  rewrite (be_bytes_sl v 2 2 Hok) by lia.
+  destruct (put_slice_step_t T b1 2 2 _ L1 P1 ltac:(lia) (eq_sym T2)) as [L2 P2]. change (2 + 2) with 4 in P2.
+  set (b2 := put 2 (sl v 2 2) b1) in *.
+  rewrite (w_aligned 4 2 (blen v) b2) by (first [lia | (change (256 ^ 2) with 65536; lia)]).
+  replace (be_bytes (N.to_nat 2) (blen v)) with (sl v 4 2)
+    by (rewrite <- Hlen at 1; symmetry; apply be_bytes_sl; [exact Hok|lia]).
+  destruct (put_slice_step_t T b2 4 2 _ L2 P2 ltac:(lia) (eq_sym T4)) as [L3 P3]. change (4 + 2) with 6 in P3.
+  set (b3 := put 4 (sl v 4 2) b2) in *.
+  rewrite (w_aligned 6 2 0 b3) by (first [lia | (vm_compute; reflexivity)]).
+  change (be_bytes (N.to_nat 2) 0) with [0; 0].
+  destruct (put_slice_step_t T b3 6 2 _ L3 P3 ltac:(lia) (eq_sym T6)) as [L4 P4]. change (6 + 2) with 8 in P4.
+  set (b4 := put 6 [0; 0] b3) in *.
+  destruct (put_slice_step_t T b4 8 (blen v - 8) _ L4 P4 ltac:(lia) (eq_sym T8)) as [L5 P5].
+  replace (8 + (blen v - 8)) with (blen v) in P5 by lia.
+  set (b5 := put 8 (sub v 8 (blen v)) b4) in *.
+  assert (E5 : b5 = T) by (apply sub_whole_eq; [exact L5|]; rewrite LT; exact P5).
+  rewrite E5. rewrite <- LT at 1. rewrite sub_all. fold T in Hc. rewrite <- Hc.
+  rewrite (w_aligned 6 2 _ T) by (first [lia | (apply (be_lt v 6 2 Hok); lia)]).
+  rewrite (be_bytes_sl v 6 2 Hok) by lia.
+  unfold T. rewrite put_put by (first [reflexivity | (cbn; lia) | (pose proof (sl_blen v 6 2 ltac:(lia)) as E; unfold blen in E |- *; cbn [length]; lia)]).
+  apply put_same. lia.
+Qed.
+
+(** * address header: two ISD-AS numbers (each written as ISD + AS) and the two host addresses *)
+Lemma ia_parts (v : bytes) o : bytes_ok v = true -> o + 8 <= blen v ->
+  trunc 16 (N.shiftr (be v o 8) 48) = be v o 2 /\ N.land (be v o 8) ASN_MASK = be v (o + 2) 6.
+Proof.
+  intros Hok H.
+  assert (S : be v o 8 = be v o 2 * 256 ^ 6 + be v (o + 2) 6) by (change 8 with (2 + 6) at 1; apply be_split; [exact Hok|lia]).
+  assert (B2 : be v o 2 < 65536) by (apply (be_lt v o 2 Hok); lia).
+  assert (B6 : be v (o + 2) 6 < 281474976710656) by (apply (be_lt v (o + 2) 6 Hok); lia).
+  change (256 ^ 6) with 281474976710656 in S.
+  split.
+  - rewrite N.shiftr_div_pow2. change (2 ^ 48) with 281474976710656. unfold trunc. change (2 ^ 16) with 65536.
+    rewrite S. clear S. replace ((be v o 2 * 281474976710656 + be v (o + 2) 6) / 281474976710656) with (be v o 2) by lia.
+    apply N.mod_small. exact B2.
+  - change ASN_MASK with (N.ones 48). rewrite N.land_ones. change (2 ^ 48) with 281474976710656.
+    rewrite S. clear S. lia.
+Qed.
+
+Lemma encode_decode_addr (v buf : bytes) h :
+  bytes_ok v = true ->
+  let dl := host_size (h_dst_host h) in let sl_ := host_size (h_src_host h) in
+  dl <= 16 -> sl_ <= 16 -> blen v = 16 + dl + sl_ -> blen buf = blen v ->
+  h_dst_ia h = be v 0 8 -> h_src_ia h = be v 8 8 ->
+  host_bytes (h_dst_host h) = sl v 16 dl -> host_bytes (h_src_host h) = sl v (16 + dl) sl_ ->
+  encode_addr h buf = v.
+Proof.
+  intros Hok dl sl_ Hd Hs Lv Lb Ed Es Hdb Hsb.
+  unfold encode_addr. fold dl sl_. cbv zeta.
+  assert (Td : trunc 8 dl = dl) by (unfold trunc; change (2 ^ 8) with 256; apply N.mod_small; lia).
+  rewrite Td. change (AddressHeader_FIXED_SIZE_BITS / 8) with 16.
+  rewrite Ed, Es.
+  destruct (ia_parts v 0 Hok ltac:(lia)) as [D1 D2]. destruct (ia_parts v 8 Hok ltac:(lia)) as [S1 S2].
+  rewrite D1, D2, S1, S2. change (0 + 2) with 2. change (8 + 2) with 10.
+  change AddressHeader_DST_ISD_RNG with (8 * 0, 8 * 2). change AddressHeader_DST_AS_RNG with (8 * 2, 8 * 6).
+  change AddressHeader_SRC_ISD_RNG with (8 * 8, 8 * 2). change AddressHeader_SRC_AS_RNG with (8 * 10, 8 * 6).
+  rewrite (w_aligned 0 2 _ buf) by (first [lia | (apply (be_lt v 0 2 Hok); lia)]).
+  rewrite (be_bytes_sl v 0 2 Hok) by lia.
+  destruct (put_slice_step v buf 0 2 ltac:(lia) ltac:(reflexivity) ltac:(lia)) as [L1 P1]. change (0 + 2) with 2 in P1.
+  set (b1 := put 0 (sl v 0 2) buf) in *.
+  rewrite (w_aligned 2 6 _ b1) by (first [lia | (apply (be_lt v 2 6 Hok); lia)]).
+  rewrite (be_bytes_sl v 2 6 Hok) by lia.
+  destruct (put_slice_step v b1 2 6 L1 P1 ltac:(lia)) as [L2 P2]. change (2 + 6) with 8 in P2.
+  set (b2 := put 2 (sl v 2 6) b1) in *.
+  rewrite (w_aligned 8 2 _ b2) by (first [lia | (apply (be_lt v 8 2 Hok); lia)]).
+  rewrite (be_bytes_sl v 8 2 Hok) by lia.
+  destruct (put_slice_step v b2 8 2 L2 P2 ltac:(lia)) as [L3 P3]. change (8 + 2) with 10 in P3.
+  set (b3 := put 8 (sl v 8 2) b2) in *.
+  rewrite (w_aligned 10 6 _ b3) by (first [lia | (apply (be_lt v 10 6 Hok); lia)]).
+  rewrite (be_bytes_sl v 10 6 Hok) by lia.
+  destruct (put_slice_step v b3 10 6 L3 P3 ltac:(lia)) as [L4 P4]. change (10 + 6) with 16 in P4.
+  set (b4 := put 10 (sl v 10 6) b3) in *.
+  rewrite Hdb, Hsb.
+  destruct (put_slice_step v b4 16 dl L4 P4 ltac:(lia)) as [L5 P5].
+  set (b5 := put 16 (sl v 16 dl) b4) in *.
+  destruct (put_slice_step v b5 (16 + dl) sl_ L5 P5 ltac:(lia)) as [L6 P6].
+  apply sub_whole_eq; [exact L6|]. rewrite Lv. exact P6.
+Qed.
+
+(** a decoded host address re-encodes to the bytes it was read from, if the service address's
+    padding is zero (the canonical form) *)
+Lemma host_bytes_of_decoded nib (raw : bytes) x :
+  bytes_ok raw = true -> host_addr_decode nib raw = Some x ->
+  (forall s, x = HA_Svc s -> sl raw 2 2 = [0; 0]) -> host_bytes x = raw.
+Proof.
+  intros Hok Hd Hc. unfold host_addr_decode in Hd.
+  destruct (nib =? HAT_IPV4). { destruct (blen raw =? 4); inversion Hd. reflexivity. }
+  destruct (nib =? HAT_IPV6). { destruct (blen raw =? 16); inversion Hd. reflexivity. }
+  destruct (nib =? HAT_SERVICE).
+  { destruct (blen raw =? 4) eqn:L; inversion Hd as [E]. apply N.eqb_eq in L. cbn [host_bytes].
+    specialize (Hc _ (eq_sym E)). unfold blen in L.
+    destruct raw as [|a [|b [|c [|d [|e r]]]]]; cbn [length] in L; try lia.
+    unfold sl in Hc. cbn in Hc. inversion Hc; subst c d.
+    cbn [bytes_ok forallb] in Hok. apply Bool.andb_true_iff in Hok. destruct Hok as [Ha Hok].
+    apply Bool.andb_true_iff in Hok. destruct Hok as [Hb _]. unfold byte_ok in Ha, Hb. apply N.ltb_lt in Ha, Hb.
+    unfold sub. cbn [N.to_nat skipn firstn]. change (N.to_nat (2 - 0)) with 2%nat. cbn [firstn be_val be_bytes app].
+    replace (((0 * 256 + a) * 256 + b) / 256 mod 256) with a by lia.
+    replace (((0 * 256 + a) * 256 + b) mod 256) with b by lia. reflexivity. }
+  destruct (blen raw <=? 16); inversion Hd. reflexivity.
+Qed.
+
+(** * the info / hop field arrays of a standard path, through the encoder's loops: writing the
+    decoded fields into a buffer that already agrees with [V] up to the start of the array makes
+    it agree with [V] up to the end of the array *)
+Lemma encode_infos_canon (V : bytes) l : forall i data,
+  bytes_ok V = true -> blen data = blen V -> (i + N.of_nat (length l)) * 8 <= blen V ->
+  sub data 0 (i * 8) = sub V 0 (i * 8) ->
+  (forall k x, nth_error l k = Some x ->
+     decode_info (sub V ((i + N.of_nat k) * 8) ((i + N.of_nat k) * 8 + 8)) = Ok x /\ be V ((i + N.of_nat k) * 8 + 1) 1 = 0) ->
+  blen (encode_infos l i data) = blen V
+  /\ sub (encode_infos l i data) 0 ((i + N.of_nat (length l)) * 8) = sub V 0 ((i + N.of_nat (length l)) * 8).
+Proof.
+  induction l as [|x r IH]; intros i data Hok Ld Hl Hp Hk; cbn [encode_infos length].
+  - change (N.of_nat 0) with 0. rewrite N.add_0_r. split; assumption.
+  - cbn [length] in *. rewrite Nat2N.inj_succ in *. destruct (info_range_rel i) as [-> ->].
+    destruct (Hk 0%nat x eq_refl) as [Dx Rx]. change (N.of_nat 0) with 0 in Dx, Rx. rewrite N.add_0_r in Dx, Rx.
+    unfold on_sub.
+    assert (S8 : forall (b : bytes), blen b = blen V -> blen (sub b (i * 8) (i * 8 + 8)) = 8) by (intros b Hb; rewrite blen_sub by lia; lia).
+    rewrite (encode_decode_info (sub V (i * 8) (i * 8 + 8)) x (sub data (i * 8) (i * 8 + 8)) (bytes_ok_sub V _ _ Hok) (S8 V eq_refl)
+               ltac:(rewrite be_sub by lia; exact Rx) Dx (S8 data Ld)).
+    replace (sub V (i * 8) (i * 8 + 8)) with (sl V (i * 8) 8) by (apply sl_sub).
+    destruct (put_slice_step V data (i * 8) 8 Ld Hp ltac:(lia)) as [L1 P1].
+    replace (i * 8 + 8) with ((i + 1) * 8) in P1 by lia.
+    destruct (IH (i + 1) _ Hok L1 ltac:(lia) P1) as [L2 P2].
+    + intros k y Hy. specialize (Hk (S k) y Hy). rewrite Nat2N.inj_succ in Hk.
+      replace (i + 1 + N.of_nat k) with (i + N.succ (N.of_nat k)) by lia. exact Hk.
+    + split; [exact L2|]. replace (i + N.succ (N.of_nat (length r))) with (i + 1 + N.of_nat (length r)) by lia. exact P2.
+Qed.
+
+Lemma encode_hops_canon (V : bytes) s0 s1 s2 l : forall i data,
+  let base := info_field_count s0 s1 s2 * 8 in
+  bytes_ok V = true -> blen data = blen V -> base + (i + N.of_nat (length l)) * 12 <= blen V ->
+  sub data 0 (base + i * 12) = sub V 0 (base + i * 12) ->
+  (forall k x, nth_error l k = Some x ->
+     decode_hop (sub V (base + (i + N.of_nat k) * 12) (base + (i + N.of_nat k) * 12 + 12)) = Ok x) ->
+  blen (encode_hops l s0 s1 s2 i data) = blen V
+  /\ sub (encode_hops l s0 s1 s2 i data) 0 (base + (i + N.of_nat (length l)) * 12) = sub V 0 (base + (i + N.of_nat (length l)) * 12).
+Proof.
+  induction l as [|x r IH]; intros i data base Hok Ld Hl Hp Hk; cbn [encode_hops length].
+  - change (N.of_nat 0) with 0. rewrite N.add_0_r. split; assumption.
+  - cbn [length] in *. rewrite Nat2N.inj_succ in *. destruct (hop_range_rel s0 s1 s2 i) as [-> ->]. fold base.
+    pose proof (Hk 0%nat x eq_refl) as Dx. change (N.of_nat 0) with 0 in Dx. rewrite N.add_0_r in Dx.
+    unfold on_sub.
+    assert (S12 : forall (b : bytes), blen b = blen V -> blen (sub b (base + i * 12) (base + i * 12 + 12)) = 12)
+      by (intros b Hb; rewrite blen_sub by lia; lia).
+    rewrite (encode_decode_hop (sub V (base + i * 12) (base + i * 12 + 12)) x (sub data (base + i * 12) (base + i * 12 + 12))
+               (bytes_ok_sub V _ _ Hok) (S12 V eq_refl) Dx (S12 data Ld)).
+    replace (sub V (base + i * 12) (base + i * 12 + 12)) with (sl V (base + i * 12) 12) by (apply sl_sub).
+    destruct (put_slice_step V data (base + i * 12) 12 Ld Hp ltac:(lia)) as [L1 P1].
+    replace (base + i * 12 + 12) with (base + (i + 1) * 12) in P1 by lia.
+    destruct (IH (i + 1) _ Hok L1 ltac:(fold base; lia) P1) as [L2 P2].
+    + intros k y Hy. specialize (Hk (S k) y Hy). rewrite Nat2N.inj_succ in Hk.
+      replace (i + 1 + N.of_nat k) with (i + N.succ (N.of_nat k)) by lia. exact Hk.
+    + split; [exact L2|]. fold base in P2. replace (i + N.succ (N.of_nat (length r))) with (i + 1 + N.of_nat (length r)) by lia. exact P2.
+Qed.
+
+(** * the whole standard path: meta header + info array + hop array *)
+Lemma apply_writes_app ws : forall (x t : bytes),
+  (forall r, In r ws -> byte_hi (fst r) <= blen x) -> apply_writes ws (x ++ t) = apply_writes ws x ++ t.
+Proof.
+  induction ws as [|[r val] ws IH]; intros x t H; [reflexivity|].
+  change (apply_writes ((r, val) :: ws) (x ++ t)) with (apply_writes ws (lane_write (x ++ t) r val)).
+  change (apply_writes ((r, val) :: ws) x) with (apply_writes ws (lane_write x r val)).
+  rewrite lane_write_app by (apply (H (r, val)); left; reflexivity).
+  apply IH. intros r' Hr'. rewrite lane_write_blen by (apply (H (r, val)); left; reflexivity). apply H. right. exact Hr'.
+Qed.
+
+Lemma encode_decode_stdpath (V buf : bytes) ci ch segs :
+  bytes_ok V = true -> bytes_ok buf = true -> blen buf = blen V ->
+  let m := be V 0 4 in
+  let s0 := seg_len8 segs 0 in let s1 := seg_len8 segs 1 in let s2 := seg_len8 segs 2 in
+  let ni := info_field_count s0 s1 s2 in let nh := hop_field_count s0 s1 s2 in
+  blen V = 4 + ni * 8 + nh * 12 ->
+  (m / 2 ^ 18) mod 64 = 0 -> ci = m / 2 ^ 30 -> ch = (m / 2 ^ 24) mod 64 ->
+  s0 = (m / 2 ^ 12) mod 64 -> s1 = (m / 2 ^ 6) mod 64 -> s2 = m mod 64 ->
+  N.of_nat (length (map s_info segs)) = ni -> N.of_nat (length (std_hops segs)) = nh ->
+  (forall k x, nth_error (map s_info segs) k = Some x ->
+     decode_info (sub V (4 + N.of_nat k * 8) (4 + N.of_nat k * 8 + 8)) = Ok x /\ be V (4 + N.of_nat k * 8 + 1) 1 = 0) ->
+  (forall k x, nth_error (std_hops segs) k = Some x ->
+     decode_hop (sub V (4 + ni * 8 + N.of_nat k * 12) (4 + ni * 8 + N.of_nat k * 12 + 12)) = Ok x) ->
+  encode_path (DP_Std ci ch segs) buf = V.
+Proof.
+  intros Hok Hob Lb m s0 s1 s2 ni nh LV Hr Eci Ech E0 E1 E2 Lni Lnh Hi Hh.
+  cbn [encode_path]. fold s0 s1 s2.
+  change (w StdPathMeta_SEG2_LEN_RNG s2 (w StdPathMeta_SEG1_LEN_RNG s1 (w StdPathMeta_SEG0_LEN_RNG s0 (w StdPathMeta_RSV_RNG 0
+           (w StdPathMeta_CURR_HOP_FIELD_RNG ch (w StdPathMeta_CURR_INFO_FIELD_RNG ci buf))))))
+    with (apply_writes (meta_writes ci ch s0 s1 s2) buf).
+  (* split the buffer and V at the meta header *)
+  set (x := firstn 4 buf). set (t := skipn 4 buf).
+  assert (Eb : buf = x ++ t) by (symmetry; apply firstn_skipn).
+  assert (Lx : blen x = 4) by (unfold x, blen in *; rewrite firstn_length; lia).
+  assert (Lt : blen t = ni * 8 + nh * 12) by (unfold t, blen in *; rewrite skipn_length; lia).
+  set (V4 := sub V 0 4). set (VD := sub V 4 (blen V)).
+  assert (LV4 : blen V4 = 4) by (unfold V4; rewrite blen_sub by lia; lia).
+  assert (LVD : blen VD = ni * 8 + nh * 12) by (unfold VD; rewrite blen_sub by lia; lia).
+  assert (EV : V = V4 ++ VD).
+  { unfold V4, VD, sub. rewrite N.sub_0_r. cbn [N.to_nat skipn]. rewrite (firstn_all2 (n := N.to_nat (blen V - 4))).
+    - symmetry. apply firstn_skipn.
+    - rewrite skipn_length. unfold blen. lia. }
+  rewrite Eb. rewrite apply_writes_app.
+  2: { intros r Hr'. rewrite Lx. unfold meta_writes in Hr'. cbn [In] in Hr'.
+       repeat (destruct Hr' as [<-|Hr']; [cbn [fst]; apply N.leb_le; vm_compute; reflexivity|]). destruct Hr'. }
+  (* the meta header *)
+  assert (Em : be V4 0 4 = m) by (unfold V4; rewrite be_sub by lia; reflexivity).
+  assert (Emeta : apply_writes (meta_writes ci ch s0 s1 s2) x = V4).
+  { rewrite Eci, Ech, E0, E1, E2. rewrite <- Em.
+    apply (encode_decode_meta V4 x (bytes_ok_sub V 0 4 Hok) LV4).
+    - unfold x. apply bytes_ok_firstn. exact Hob.
+    - exact Lx.
+    - rewrite Em. exact Hr. }
+  rewrite Emeta.
+  unfold on_suffix. change StdPathMeta_SIZE_BYTES with 4. change (N.to_nat 4) with 4%nat.
+  assert (L4n : length V4 = 4%nat) by (unfold blen in LV4; lia).
+  rewrite <- L4n at 1. rewrite firstn_app, Nat.sub_diag, firstn_all. cbn [firstn]. rewrite app_nil_r.
+  rewrite <- L4n at 1. rewrite skipn_app, Nat.sub_diag, skipn_all. cbn [skipn app].
+  transitivity (V4 ++ VD); [|symmetry; exact EV]. f_equal.
+  (* the arrays, on the data part *)
+  assert (OVD : bytes_ok VD = true) by (apply bytes_ok_sub; exact Hok).
+  destruct (encode_infos_canon VD (map s_info segs) 0 t OVD ltac:(rewrite Lt, LVD; reflexivity) ltac:(rewrite Lni, LVD; lia) eq_refl) as [L1 P1].
+  { intros k y Hy. destruct (Hi k y Hy) as [D R]. rewrite N.add_0_l. unfold VD.
+    pose proof Hy as Kl. apply nth_error_Some_lt in Kl.
+    assert (Kb : 4 + (N.of_nat k * 8 + 8) <= blen V) by (clear - Kl Lni LV; lia).
+    split.
+    - rewrite sub_sub by (first [exact Kb | apply N.le_refl]).
+      replace (4 + N.of_nat k * 8) with (4 + N.of_nat k * 8) by reflexivity.
+      replace (4 + (N.of_nat k * 8 + 8)) with (4 + N.of_nat k * 8 + 8) by (clear; lia). exact D.
+    - rewrite be_sub by (first [(clear - Kb; lia) | apply N.le_refl]).
+      replace (4 + (N.of_nat k * 8 + 1)) with (4 + N.of_nat k * 8 + 1) by (clear; lia). exact R. }
+  rewrite N.add_0_l, Lni in P1.
+  set (d1 := encode_infos (map s_info segs) 0 t) in *.
+  destruct (encode_hops_canon VD s0 s1 s2 (std_hops segs) 0 d1 OVD L1) as [L2 P2].
+  - fold ni. rewrite Lnh, LVD. lia.
+  - fold ni. rewrite N.mul_0_l, N.add_0_r. exact P1.
+  - intros k y Hy. fold ni. rewrite N.add_0_l. unfold VD.
+    pose proof Hy as Kl. apply nth_error_Some_lt in Kl.
+    assert (Kb : 4 + (ni * 8 + N.of_nat k * 12 + 12) <= blen V) by (clear - Kl Lnh LV; lia).
+    rewrite sub_sub by (first [exact Kb | apply N.le_refl]).
+    replace (4 + (ni * 8 + N.of_nat k * 12)) with (4 + ni * 8 + N.of_nat k * 12) by (clear; lia).
+    replace (4 + (ni * 8 + N.of_nat k * 12 + 12)) with (4 + ni * 8 + N.of_nat k * 12 + 12) by (clear; lia). apply Hh. exact Hy.
+  - fold ni in P2. rewrite N.add_0_l, Lnh in P2.
+    apply sub_whole_eq; [exact L2|]. rewrite LVD. exact P2.
+Qed.
+
+(** * composition of the layers along the packet layout: if every layer of the model re-encodes
+    (into any buffer of its size) to the corresponding slice of a byte string, the whole packet
+    re-encodes to the whole byte string *)
+Lemma zeros_app a b : zeros (a + b) = zeros a ++ zeros b.
+Proof. unfold zeros. rewrite N2Nat.inj_add. apply repeat_app. Qed.
+
+Lemma put_app_left lo (y x t : bytes) : lo + blen y <= blen x -> put lo y (x ++ t) = put lo y x ++ t.
+Proof.
+  intros H. unfold put, blen in *.
+  rewrite firstn_app. replace (N.to_nat lo - length x)%nat with 0%nat by lia. cbn [firstn]. rewrite app_nil_r.
+  rewrite skipn_app. replace (N.to_nat lo + length y - length x)%nat with 0%nat by lia. cbn [skipn].
+  rewrite <- !app_assoc. reflexivity.
+Qed.
+
+Lemma encode_common_local h u ps (x t : bytes) : blen x = 12 -> encode_common h u ps (x ++ t) = encode_common h u ps x ++ t.
+Proof.
+  intros L. rewrite !encode_common_writes. apply apply_writes_app.
+  intros r Hr. rewrite L. unfold common_writes in Hr. cbn [In] in Hr.
+  repeat (destruct Hr as [<-|Hr]; [cbn [fst]; apply N.leb_le; vm_compute; reflexivity|]). destruct Hr.
+Qed.
+
+Lemma encode_addr_local h (x t : bytes) : addr_size h = 16 + host_size (h_dst_host h) + host_size (h_src_host h) ->
+  host_size (h_dst_host h) <= 16 -> blen (host_bytes (h_dst_host h)) = host_size (h_dst_host h) ->
+  blen (host_bytes (h_src_host h)) = host_size (h_src_host h) ->
+  blen x = addr_size h -> encode_addr h (x ++ t) = encode_addr h x ++ t.
+Proof.
+  intros A Hd Ld Ls L. unfold encode_addr. cbv zeta.
+  assert (Td : trunc 8 (host_size (h_dst_host h)) = host_size (h_dst_host h)) by (unfold trunc; change (2 ^ 8) with 256; apply N.mod_small; lia).
+  rewrite Td. change (AddressHeader_FIXED_SIZE_BITS / 8) with 16.
+  unfold w.
+  assert (H16 : forall r, In r [AddressHeader_DST_ISD_RNG; AddressHeader_DST_AS_RNG; AddressHeader_SRC_ISD_RNG; AddressHeader_SRC_AS_RNG] -> byte_hi r <= 16).
+  { intros r Hr. cbn [In] in Hr. repeat (destruct Hr as [<-|Hr]; [apply N.leb_le; vm_compute; reflexivity|]). destruct Hr. }
+  rewrite lane_write_app by (rewrite L, A; specialize (H16 AddressHeader_DST_ISD_RNG ltac:(cbn [In]; tauto)); lia).
+  set (x1 := lane_write x AddressHeader_DST_ISD_RNG _).
+  assert (L1 : blen x1 = blen x) by (apply lane_write_blen; rewrite L, A; specialize (H16 AddressHeader_DST_ISD_RNG ltac:(cbn [In]; tauto)); lia).
+  rewrite lane_write_app by (rewrite L1, L, A; specialize (H16 AddressHeader_DST_AS_RNG ltac:(cbn [In]; tauto)); lia).
+  set (x2 := lane_write x1 AddressHeader_DST_AS_RNG _).
+  assert (L2 : blen x2 = blen x) by (rewrite <- L1; apply lane_write_blen; rewrite L1, L, A; specialize (H16 AddressHeader_DST_AS_RNG ltac:(cbn [In]; tauto)); lia).
+  rewrite lane_write_app by (rewrite L2, L, A; specialize (H16 AddressHeader_SRC_ISD_RNG ltac:(cbn [In]; tauto)); lia).
+  set (x3 := lane_write x2 AddressHeader_SRC_ISD_RNG _).
+  assert (L3 : blen x3 = blen x) by (rewrite <- L2; apply lane_write_blen; rewrite L2, L, A; specialize (H16 AddressHeader_SRC_ISD_RNG ltac:(cbn [In]; tauto)); lia).
+  rewrite lane_write_app by (rewrite L3, L, A; specialize (H16 AddressHeader_SRC_AS_RNG ltac:(cbn [In]; tauto)); lia).
+  set (x4 := lane_write x3 AddressHeader_SRC_AS_RNG _).
+  assert (L4 : blen x4 = blen x) by (rewrite <- L3; apply lane_write_blen; rewrite L3, L, A; specialize (H16 AddressHeader_SRC_AS_RNG ltac:(cbn [In]; tauto)); lia).
+  rewrite put_app_left by (rewrite Ld, L4, L, A; lia).
+  rewrite put_app_left by (rewrite put_blen by (rewrite Ld, L4, L, A; lia); rewrite Ls, L4, L, A; lia).
+  reflexivity.
+Qed.
+
+Lemma compose_packet p alh al (cv av xv pv : bytes) :
+  let h := p_hdr p in let hs := header_size h in let ps := payload_size (p_pl p) hs in
+  addr_size h = 16 + host_size (h_dst_host h) + host_size (h_src_host h) -> host_size (h_dst_host h) <= 16 ->
+  blen (host_bytes (h_dst_host h)) = host_size (h_dst_host h) -> blen (host_bytes (h_src_host h)) = host_size (h_src_host h) ->
+  blen cv = 12 -> blen av = addr_size h -> blen xv = path_size (h_path h) -> blen pv = ps ->
+  (forall B, bytes_ok B = true -> blen B = 12 -> encode_common h (trunc 8 (hs / 4)) (trunc 16 ps) B = cv) ->
+  (forall B, bytes_ok B = true -> blen B = blen av -> encode_addr h B = av) ->
+  (forall B, bytes_ok B = true -> blen B = blen xv -> encode_path (h_path h) B = xv) ->
+  (forall B, bytes_ok B = true -> blen B = blen pv -> encode_payload h (p_pl p) hs alh al B = pv) ->
+  encode_packet_al p alh al = cv ++ av ++ xv ++ pv.
+Proof.
+  intros h hs ps A Hd Ld Ls Lc La Lx Lp Fc Fa Fx Fp.
+  unfold encode_packet_al. fold h hs ps. cbv zeta.
+  rewrite (Fp (zeros ps) (proj1 (zeros_ok ps)) ltac:(rewrite (proj2 (zeros_ok ps)); symmetry; exact Lp)).
+  rewrite !app_assoc. f_equal. rewrite <- !app_assoc.
+  unfold encode_header. fold hs. cbv zeta.
+  assert (Ehs : hs = 12 + (addr_size h + path_size (h_path h))) by (unfold hs, header_size, CommonHeader_SIZE_BYTES; lia).
+  rewrite Ehs at 2. rewrite zeros_app, zeros_app.
+  destruct (zeros_ok 12) as [Z1 Z1l]. destruct (zeros_ok (addr_size h)) as [Z2 Z2l]. destruct (zeros_ok (path_size (h_path h))) as [Z3 Z3l].
+  rewrite encode_common_local by exact Z1l. rewrite (Fc _ Z1 Z1l).
+  change CommonHeader_SIZE_BYTES with 12.
+  assert (Lcn : length cv = N.to_nat 12) by (unfold blen in Lc; lia).
+  unfold on_suffix at 2. rewrite <- Lcn. rewrite firstn_app, Nat.sub_diag, firstn_all. cbn [firstn]. rewrite app_nil_r.
+  rewrite skipn_app, Nat.sub_diag, skipn_all. cbn [skipn app].
+  rewrite (encode_addr_local h _ _ A Hd Ld Ls Z2l). rewrite (Fa _ Z2 ltac:(rewrite Z2l; symmetry; exact La)).
+  unfold on_suffix.
+  assert (Lcan : length (cv ++ av) = N.to_nat (12 + addr_size h)) by (rewrite app_length; unfold blen in Lc, La; lia).
+  rewrite app_assoc. rewrite <- Lcan. rewrite firstn_app, Nat.sub_diag, firstn_all. cbn [firstn]. rewrite app_nil_r.
+  rewrite skipn_app, Nat.sub_diag, skipn_all. cbn [skipn app].
+  rewrite (Fx _ Z3 ltac:(rewrite Z3l; symmetry; exact Lx)). rewrite <- app_assoc. reflexivity.
 Qed.
